@@ -99,3 +99,9 @@ def followup_tie(ctx):
 def _followup_validate(ctx, rep, n):
     from harness.adapters import src_validate
     src_validate.followup_validate(ctx, rep, n)
+
+
+def estimate_tie(ctx):
+    from harness.extract import estimate_src
+    return _run(ctx, "estimate", estimate_src.generate, "LdarModel.Props.EstimateTie",
+                "LdarModel/Props/EstimateTie.lean")
